@@ -347,6 +347,12 @@ def main():
     ap.add_argument('--only', default='')
     a = ap.parse_args()
     only = set(x for x in a.only.split(';') if x)
+    # work on a private copy of the driver: another agent may relink lean/.lake/build/bin/sqlmodel while we run
+    import shutil, tempfile, atexit
+    private = os.path.join(tempfile.gettempdir(), 'sqlmodel-validate-%d' % os.getpid())
+    shutil.copy2(common.DRIVER, private)
+    atexit.register(lambda: os.path.exists(private) and os.unlink(private))
+    common.DRIVER = private
     ctx = Ctx('filters', 'thorough', a.seed)
     t0 = time.time()
 
